@@ -33,7 +33,7 @@ MANIFEST = {
     "technique": "deterministic simulation with exception / I/O-error injection at a seeded (item, worker, schedule point); bounded-liveness oracle in virtual time",
 }
 BUDGET = {"quick": (2500, 60), "thorough": (150000, 1500)}
-REQUIRED_PROBES = {"quick": ["injected_exception"], "thorough": ["injected_exception", "injected_io_error"]}
+REQUIRED_PROBES = {"quick": ["injected_exception"], "thorough": ["injected_exception", "injected_io_error", "injected_unreadable_input"]}
 CHUNK = 25
 LIVENESS_BOUND = 600.0
 
@@ -86,6 +86,51 @@ class IoFault(object):
             raise OSError(errno.EIO, "injected I/O error on tile %s (%s)" % (kind, rel))
 
 
+def run_corrupt_input(ch, env, stage, workers, res):
+    """An input image that cannot be read (truncated data): wherever toasty reads it - in a worker or in the
+    producer - the tiling must fail visibly, in serial mode and in every parallel mode."""
+    stage.corrupt_input = ch.draw(len(stage.col.rects), kind="which_input")
+    res["config"].update(fault="unreadable-input", corrupt_input=stage.corrupt_input)
+    res["extra"]["fault_unreadable_input"] = 1
+    d = env.fresh_dir()
+    stage.populate(d)
+    rec = stages.Recorder(None)
+    rec.serial = []
+    try:
+        stage.run(1, rec, d)
+    except Exception:
+        pass
+    else:
+        # the truncation did not make this input unreadable (e.g. only padding was cut): nothing to test
+        res["digest"] = "input-still-readable"
+        res["extra"]["not_injected"] = 1
+        return res
+    d = env.fresh_dir()
+    stage.populate(d)
+    sim = Sim(ch, step_cap=80000)
+    sim.rootdir = d
+    sim.stop_faults()
+    res["config"].update(common.sched_config(sim))
+    rec = stages.Recorder(sim, 0)
+
+    def main():
+        stage.run(workers, rec, d)
+
+    main_task = sim.run(main)
+    common.sim_summary(sim, res)
+    res["nontrivial"] = True
+    res.setdefault("faults", {})["injected_unreadable_input"] = 1
+    what = "%s(parallel=%d)" % (stage.name, workers)
+    if sim.status == "returned":
+        if main_task.exc is None:
+            res["violation"] = viol(PROP, "swallowed", "%s returned normally although input #%d cannot be read (serial mode raises); worker stderr: %s" % (
+                what, stage.corrupt_input, (sim.stderr[0][-300:] if sim.stderr else "none")), stage.name + ":unreadable-input")
+        return res
+    res["violation"] = viol(PROP, "hang", "%s neither raised nor returned with an unreadable input #%d: simulator status %s at step %d; blocked: %s" % (
+        what, stage.corrupt_input, sim.status, sim.step, [(t.name, t.waiting_op) for t in sim.tasks if t.state == "blocked"][:8]), stage.name + ":unreadable-input")
+    return res
+
+
 def run_one(ch, env):
     cls = pick_stage(ch)
     stage = cls(ch)
@@ -107,6 +152,9 @@ def run_one(ch, env):
         res["digest"] = "no-items"
         res["extra"]["no_items"] = 1
         return res
+    input_mode = hasattr(stage, "col") and ch.draw(3, kind="corrupt_input") == 2
+    if input_mode:
+        return run_corrupt_input(ch, env, stage, workers, res)
     io_mode = needs_dir and getattr(stage, "io_faults", True) and ch.draw(2, kind="fault_kind") == 1
     k = ch.draw(n_items, kind="fail_at")
     err = stages.ERROR_KINDS[ch.draw(len(stages.ERROR_KINDS), kind="error_kind")]
